@@ -155,9 +155,20 @@ func (c *Ctx) ruleBoundForm(rule string) {
 				if !isCall || core.StaticCalleeName(&call.Call) != "math.IsNaN" || call.Call.Args[0] != q {
 					continue
 				}
-				if ifi, isIf := b.Instrs[len(b.Instrs)-1].(*ssa.If); isIf && ifi.Cond == ssa.Value(call) && c.edgeRejectsIdx(fn, b, 0) {
-					// the test must be reached whenever a bound is present: its block is entered on `min != nil || max != nil`
-					ok = true
+				// every block entered where IsNaN is known true (the If may test it directly or as part of a case
+				// expression of a tagless switch) rejects
+				if targets := core.EdgesWhere(fn, call, true); len(targets) > 0 {
+					all := true
+					ei := core.ErrorResultIndex(fn.Signature)
+					for _, t := range targets {
+						r, isRet := t.Instrs[len(t.Instrs)-1].(*ssa.Return)
+						if !isRet || ei < 0 || !c.M.ProvablyNonNilError(core.RetVal(r, ei), t) {
+							all = false
+						}
+					}
+					if all {
+						ok = true
+					}
 				}
 			}
 		}
@@ -205,20 +216,23 @@ func (c *Ctx) ruleBoundForm(rule string) {
 // trueEdgeRejects: every return reachable from the true successor of the If on bin (without leaving through the
 // false side) carries a provably non-nil error. We check the immediate region: the true successor block.
 func (c *Ctx) trueEdgeRejects(fn *ssa.Function, bin *ssa.BinOp) bool {
-	b := bin.Block()
-	ifi, ok := b.Instrs[len(b.Instrs)-1].(*ssa.If)
-	if !ok || ifi.Cond != ssa.Value(bin) {
-		return false
-	}
-	t := b.Succs[0]
 	ei := core.ErrorResultIndex(fn.Signature)
 	if ei < 0 {
 		return false
 	}
-	if r, ok := t.Instrs[len(t.Instrs)-1].(*ssa.Return); ok {
-		return c.M.ProvablyNonNilError(core.RetVal(r, ei), t)
+	// the blocks entered where the comparison is known true (the If may test it directly, negated, compared with the
+	// constant true, or as the last operand of a && chain evaluated as a value - a tagless switch case)
+	targets := core.EdgesWhere(fn, bin, true)
+	if len(targets) == 0 {
+		return false
 	}
-	return false
+	for _, t := range targets {
+		r, ok := t.Instrs[len(t.Instrs)-1].(*ssa.Return)
+		if !ok || !c.M.ProvablyNonNilError(core.RetVal(r, ei), t) {
+			return false
+		}
+	}
+	return true
 }
 
 // R-MUSTUSE: for every schema type and each of its constraint fields (json min, max, pattern, values), every
@@ -500,6 +514,13 @@ func (c *Ctx) ruleMember(rule string) {
 			n++
 			found := false
 			for _, cond := range core.CondsAt(r.Block()) {
+				// the same test written as a lookup: `_, found := values[data]` found true
+				if ex, isEx := cond.V.(*ssa.Extract); isEx && ex.Index == 1 && cond.True {
+					if lk, isLk := ex.Tuple.(*ssa.Lookup); isLk && lk.CommaOk && strings.HasSuffix(c.M.ValPath(lk.X), ".ValidValuesMap") &&
+						lk.Index == ssa.Value(fn.Params[len(fn.Params)-1]) {
+						found = true
+					}
+				}
 				bin, isBin := cond.V.(*ssa.BinOp)
 				if !isBin || !((bin.Op == token.EQL) == cond.True) || (bin.Op != token.EQL && bin.Op != token.NEQ) {
 					continue
@@ -526,7 +547,7 @@ func (c *Ctx) ruleMember(rule string) {
 			}
 		}
 		if ok && n > 0 {
-			c.R.Ok(rule, k, c.M.Pos(fn.Pos()), "enum membership", "every accepting return is controlled by `key == data` for a key of the values table")
+			c.R.Ok(rule, k, c.M.Pos(fn.Pos()), "enum membership", "every accepting return is controlled by `key == data` for a key of the values table (or by a successful lookup of data in it)")
 		} else {
 			c.R.Bad(rule, k, c.M.Pos(fn.Pos()), "enum accepts without matching a declared value", "an accepting return is not controlled by equality with a key of the values table (inverted or dropped membership test)")
 		}
